@@ -314,6 +314,65 @@ func (r *Runner) execMacro(a Action) {
 		r.lastFaultMs = w.Now()
 		w.Mu.Unlock()
 		r.exec(Action{Op: "heal"})
+	case "doublechange":
+		// two membership changes are requested back to back on a leader that cannot
+		// commit the first one (it is cut off from the other voters; servers that
+		// are not voters yet stay reachable): the second must wait or fail
+		li, L := r.leader()
+		if L == nil || r.stillCut(L.ID()) {
+			return
+		}
+		cfg := r.cfgOf(L)
+		suff := map[string]raft.ServerSuffrage{}
+		for _, s := range cfg.Servers {
+			suff[string(s.ID)] = s.Suffrage
+		}
+		var picks []int
+		for k := 0; k < len(r.ids) && len(picks) < 2; k++ {
+			i := (a.N + k) % len(r.ids)
+			if i != li {
+				picks = append(picks, i)
+			}
+		}
+		if len(picks) < 2 {
+			return
+		}
+		w.Mu.Lock()
+		for _, x := range r.ids {
+			if x == L.ID() {
+				continue
+			}
+			if sf, in := suff[x]; in && sf == raft.Voter {
+				r.cut[[2]string{L.ID(), x}] = true
+				r.cut[[2]string{x, L.ID()}] = true
+			}
+		}
+		r.lastFaultMs = w.Now()
+		w.EvLocked(sim.Event{Kind: "doublechange-cut", Srv: L.ID()})
+		w.Mu.Unlock()
+		for n, i := range picks {
+			if r.neverStarted(i) {
+				r.start(i)
+				r.feat("fresh-server-joins")
+			}
+			kind := "addvoter"
+			if sf, in := suff[r.ids[i]]; in && sf == raft.Voter {
+				kind = []string{"remove", "demote"}[(a.Arg+n)%2]
+			}
+			r.doMembership(L, kind, i, 0)
+			if n == 0 {
+				w.Advance(time.Duration(a.Dt%3)*time.Millisecond, r.sample)
+			}
+		}
+		r.feat("second-membership-change-requested-while-the-first-cannot-commit")
+		w.Advance(3*L.Conf.LeaderLeaseTimeout+20*time.Millisecond, r.sample)
+		if a.Arg >= 2 {
+			if _, L2 := r.leader(); L2 == L {
+				r.doTransfer(L, picks[0])
+				w.Advance(60*time.Millisecond, r.sample)
+			}
+		}
+		r.exec(Action{Op: "heal"})
 	case "suffragecut":
 		// a follower loses its vote under this leader (committed), then the
 		// leader is cut off together with the non-voters: the demoted server
